@@ -70,7 +70,9 @@ def single_origin_attempt_rule(run, fr):
         clr = [a.site for a in q.field_accesses(odl, {H + '::' + fld}) if a.kind == 'assign' and q.strip_casts(a.site.get('rhs')).get('v') is False]
         if fld == 'm_writing_to_server':
             continue
-        run.check(bool(clr) and q.on_all_paths(odl, clr), 'R4', 'single-origin-attempt', '%s releases %s' % (odl.norm, fld), odl.loc(),
+        # (a delivery with operation_aborted comes from close_connection(), which has reset the latch itself)
+        not_aborted = lambda atom: False if 'operation_aborted' in q.render(odl, atom) else None
+        run.check(bool(clr) and not q.exit_reachable_under(odl, None, clr, not_aborted), 'R4', 'single-origin-attempt', '%s releases %s' % (odl.norm, fld), odl.loc(),
                   '%s is set when the lookup starts but not cleared on every path of on_domain_lookup: after a failed lookup no later request ever connects' % fld, 'cleared on every path of the lookup completion')
 
 
@@ -130,6 +132,18 @@ def check(run):
     if not mm:
         run.broke('forward_request no longer appends to m_server_out_buffer')
     single_origin_attempt_rule(run, fr)
+    run.clause('a lookup started for one client never acts on the next one: close_connection() cancels the resolver on every path, and on_domain_lookup() does nothing when it is delivered operation_aborted')
+    cc_ = f('close_connection')
+    run.touch(cc_)
+    cancels = [c for c in cc_.calls() if (q.callee_name(c) or '').split('<')[0].endswith('::cancel') and q.render(cc_, c.get('obj')) == 'm_resolver']
+    run.check(bool(cancels) and q.on_all_paths(cc_, cancels), 'R7', 'close-cancels-lookup', H + '::close_connection', cc_.loc(),
+              'close_connection() leaves a pending name lookup running: when the client that asked for it has gone, its completion opens (or fails) the origin connection in the middle of the NEXT client\'s session - that client\'s origin connection is re-opened under it, or it receives a 503 it did not ask for',
+              'm_resolver.cancel() on every path')
+    odl_ = f('on_domain_lookup')
+    run.touch(odl_)
+    acts = [c for c in odl_.calls() if (q.callee_name(c) or '') in (H + '::open_forward_connection', H + '::error')]
+    run.check(bool(acts) and all(any('operation_aborted' in q.render(odl_, a_) and not p_ for a_, p_ in q.guards_at(odl_, c)) for c in acts), 'R5', 'aborted-lookup-ignored', H + '::on_domain_lookup', odl_.loc(),
+              'on_domain_lookup() acts (opens the origin connection or answers 503) also when the lookup was cancelled', 'returns on operation_aborted before acting')
     wsb = f('write_server_send_buffer')
     run.touch(wsb)
     w = [c for c in wsb.calls() if (q.callee_name(c) or '').split('::')[-1] in ('async_write_some', 'async_write')]
